@@ -69,12 +69,48 @@ Fixpoint hex_parse (s : str) (acc : N) : option N :=
   | c :: r => match hexval c with Some d => hex_parse r (acc * 16 + d) | None => None end
   end.
 
+(* int(text, 16) on ASCII text: surrounding white space, an optional sign, an optional "0x"/"0X" prefix (which may be
+   followed by one underscore), then hex digits with single underscores between digits.  (Non-ASCII white space and decimal
+   digits, which CPython also accepts, are outside the model: such cases are not compared.) *)
+Definition is_space (c : N) : bool := ((9 <=? c) && (c <=? 13)) || ((28 <=? c) && (c <=? 32)).
+
+Fixpoint hex_us (s : str) (acc : N) (need_digit : bool) : option N :=
+  match s with
+  | [] => if need_digit then None else Some acc
+  | c :: r =>
+      if c =? 95 then (if need_digit then None else hex_us r acc true)
+      else match hexval c with Some d => hex_us r (acc * 16 + d) false | None => None end
+  end.
+
+Definition int16 (s : str) : option N :=
+  let s1 := rstrip is_space (lstrip is_space s) in
+  match s1 with
+  | [] => None
+  | c :: r =>
+      if c =? 45 then None       (* negative: uuid.UUID(int=...) refuses; cannot occur after replace('-','') *)
+      else
+        let s2 := if c =? 43 then r else s1 in
+        match s2 with
+        | c1 :: c2 :: r2 =>
+            if (c1 =? 48) && ((c2 =? 120) || (c2 =? 88))
+            then hex_us (match r2 with u :: r' => if u =? 95 then r' else r2 | [] => r2 end) 0 true
+            else hex_us s2 0 true
+        | _ => hex_us s2 0 true
+        end
+  end.
+
 (* uuid.UUID(hex=s): hex = s.replace('urn:', '').replace('uuid:', ''); hex = hex.strip('{}').replace('-', '');
    32 characters; int(hex, 16) *)
-Definition parse_uuid (s : str) : option N :=
+Definition uuid_clean (s : str) : str :=
   let f := S (length s) in
-  let h := filter not_hyphen (rstrip is_brace (lstrip is_brace (remove f s_uuidp (remove f s_urn s)))) in
-  if Nat.eqb (length h) 32 then hex_parse h 0 else None.
+  filter not_hyphen (rstrip is_brace (lstrip is_brace (remove f s_uuidp (remove f s_urn s)))).
+
+Definition parse_uuid (s : str) : option N :=
+  let h := uuid_clean s in
+  if Nat.eqb (length h) 32 then int16 h else None.
+
+(* a text that cannot possibly be taken for an identifier, whatever int() tolerates: the cleaned text has not 32 characters *)
+Definition never_uuid (s : str) : bool := negb (Nat.eqb (length (uuid_clean s)) 32).
 
 Definition hexdigit (d : N) : N := if d <? 10 then 48 + d else 87 + d.
 
@@ -163,18 +199,64 @@ Definition fetch_meta (v : jv) : res jv :=
   | _ => Err AttributeErr
   end.
 
-(* entity.metadata = m ; close ; open ; entity.metadata *)
+(* entity.metadata = m on a fresh entity ; close ; open ; entity.metadata   (None clears and reads back None) *)
 Definition meta_trip (m : jv) : res jv :=
   match m with
   | JDict _ => let w := dmap m in if plain w then fetch_meta w else Err TypeErr     (* json.dumps: not serializable *)
+  | JNull => Ok JNull
   | _ => Err TypeErr                                                                 (* the setter *)
   end.
+
+(* Several assignments in one session.  The setter MERGES a dict into the current one (dict.update on the top level),
+   None clears.  State: what the entity holds (_metadata) and the JSON value in the 'Metadata' dataset (None = no dataset).
+   [Old]: write_data_values deletes the dataset before json.dumps raises and _metadata already holds the merged value, so a
+   refused assignment loses the stored metadata and leaves the bad value in memory.  [Repaired]
+   (fixes/C08-metadata-refusal-not-atomic.patch): the setter serialises the new value first and changes nothing on failure. *)
+Fixpoint dset (k : str) (v : jv) (d : list (str * jv)) : list (str * jv) :=
+  match d with
+  | [] => [(k, v)]
+  | (k', v') :: r => if lN_eqb k k' then (k, v) :: r else (k', v') :: dset k v r
+  end.
+Definition dupdate (c d : list (str * jv)) : list (str * jv) := fold_left (fun acc kv => dset (fst kv) (snd kv) acc) d c.
+
+Record mstate := { mem : option (list (str * jv)); file : option jv }.
+Definition mfresh : mstate := {| mem := None; file := None |}.
+
+Definition meta_store (m : list (str * jv)) : mstate * option err :=
+  let w := dmap (JDict m) in
+  if plain w then ({| mem := Some m; file := Some w |}, None)
+  else ({| mem := Some m; file := None |}, Some TypeErr).
+
+Definition meta_assign (w : ver) (st : mstate) (v : jv) : mstate * option err :=
+  match v with
+  | JNull => (mfresh, None)
+  | JDict d =>
+      let merged := match mem st with Some c => dupdate c d | None => d end in
+      match w with
+      | Old => meta_store merged
+      | Repaired => if plain (dmap v) then meta_store merged else (st, Some TypeErr)
+      end
+  | _ => (st, Some TypeErr)
+  end.
+
+Fixpoint meta_run (w : ver) (st : mstate) (ops : list jv) : mstate * list (option err) :=
+  match ops with
+  | [] => (st, [])
+  | v :: r => let (st1, e) := meta_assign w st v in let (st2, es) := meta_run w st1 r in (st2, e :: es)
+  end.
+
+Definition meta_reopen (st : mstate) : res jv :=
+  match file st with Some w => fetch_meta w | None => Ok JNull end.
 
 (* what may sit where a value is mapped back: directly in the metadata dict or in a dict directly below *)
 Definition slot2 (y : jv) : bool :=
   match y with
   | JUuid u => u <? 2 ^ 128                  (* any uuid.UUID *)
-  | JStr _ | JInt _ => match uuid_of y with Some _ => false | None => true end
+  | JInt _ => match uuid_of y with Some _ => false | None => true end
+  | JStr s => match parse_uuid s with
+              | Some _ => false
+              | None => forallb (fun c => c <? 128) s || never_uuid s    (* non-ASCII text is trusted only when it has not 32 characters *)
+              end
   | _ => plain y
   end.
 Definition slot1 (x : jv) : bool :=
@@ -246,6 +328,16 @@ Definition node_read (n : node) : res (option (str * bytes)) :=
 
 Definition node0 : node := [(k_Type, MType)].
 
+(* names add_file refuses (h5py): "" -> TypeError, embedded NUL -> ValueError, "." -> KeyError.  Names with '/' are HDF5
+   paths (nested groups, or the file root for a leading '/') and are outside this model. *)
+Definition name_refusal (name : str) : option err :=
+  match name with
+  | [] => Some TypeErr
+  | _ => if has_nul name then Some ValueErr else if lN_eqb name [46%N] then Some KeyErr else None
+  end.
+Definition name_ok (name : str) : bool :=
+  match name_refusal name with Some _ => false | None => negb (existsb (N.eqb 47) name) end.
+
 (* ------------------------------------------------------------------ comparison for the case files *)
 Fixpoint jv_eqb (a b : jv) : bool :=
   match a, b with
@@ -275,11 +367,14 @@ Fixpoint jv_eqb (a b : jv) : bool :=
 Definition res_jv_eqb (a b : res jv) : bool :=
   match a, b with Ok x, Ok y => jv_eqb x y | Err e, Err f => err_eqb e f | _, _ => false end.
 
-(* w: the JSON text found in the file, parsed (None when nothing was written) *)
-Definition meta_written (m : jv) : option jv :=
-  match m with JDict _ => if plain (dmap m) then Some (dmap m) else None | _ => None end.
-Definition agree_meta (m : jv) (w : option jv) (o : res jv) : bool :=
-  option_eqb jv_eqb (meta_written m) w && res_jv_eqb (meta_trip m) o.
+(* ops: the assignments of one session; es: the error of each; live: entity.metadata at the end; w: the JSON text in the
+   file parsed (None: no dataset); o: entity.metadata after re-open *)
+Definition agree_meta_run (v : ver) (ops : list jv) (es : list (option err)) (live w : option jv) (o : res jv) : bool :=
+  let (st, es') := meta_run v mfresh ops in
+  list_eqb (option_eqb err_eqb) es' es
+  && option_eqb jv_eqb (match mem st with Some d => Some (JDict d) | None => None end) live
+  && option_eqb jv_eqb (file st) w
+  && res_jv_eqb (meta_reopen st) o.
 
 Definition comments_written (l : list jv) : option jv :=
   match comments_trip l with Ok l' => Some (JDict [(k_Comments, JList l')]) | Err _ => None end.
@@ -301,6 +396,7 @@ Definition agree_node (name : str) (x : fin) (members : node) (o : res (option (
   match blob_store x with
   | Err _ => false
   | Ok b =>
+      negb (match name_refusal name with Some _ => true | None => false end) &&
       let n := node_write node0 name b in
       forallb (fun km => match nget (fst km) n with Some m => member_eqb m (snd km) | None => false end) members
       && Nat.eqb (length members) (length n)
@@ -311,3 +407,6 @@ Definition agree_node (name : str) (x : fin) (members : node) (o : res (option (
          | _, _ => false
          end
   end.
+
+Definition agree_name_refused (name : str) (e : err) : bool :=
+  match name_refusal name with Some e' => err_eqb e e' | None => false end.
